@@ -36,6 +36,19 @@ class BigGamma:
 
 
 def observe(tag, j, g, rng, n_orient, explicit=None):
+    try:
+        return _observe(tag, j, g, rng, n_orient, explicit)
+    except Exception as ex:  # noqa: BLE001 - nothing the harness does with public calls may crash
+        return [{"rid": f"{tag}.o0", "what": f"complex ({g.name}): building / copying it", "st": obscore_empty(), "B": [], "L": [],
+                 "anom": [f"setup.{hg.classify(ex)}"]}]
+
+
+def obscore_empty():
+    return {"nodes": [], "edges": [], "n2e": [], "e2n": [], "nak": [], "eak": [], "nattr": [], "eattr": [], "gattr": [],
+            "uid": 0, "frozen": False}
+
+
+def _observe(tag, j, g, rng, n_orient, explicit=None):
     S = xgi.SimplicialComplex()
     order = list(j["nodes"])
     rng.shuffle(order)  # nodes are not created in label order
